@@ -115,6 +115,12 @@ fn app_err() -> (ErrorCode, String) {
 }
 
 pub fn build_router(c: &Arc<Counters>) -> Router {
+    build_router_mw(c, true)
+}
+
+/// `with_mw = false`: no middleware at all, so that the servers take the zero-copy (`handle_view`) path
+/// for every route that has one (a router-wide middleware forces the copying path).
+pub fn build_router_mw(c: &Arc<Counters>, with_mw: bool) -> Router {
     let registry = Arc::new(repe::Registry::new());
     registry.register_value("/val", json!(41)).unwrap();
     {
@@ -139,8 +145,8 @@ pub fn build_router(c: &Arc<Counters>) -> Router {
         c1.hit("json");
         if v == json!("fail") { Err(app_err()) } else { Ok(json!({"echo": v})) }
     };
-    let router = Router::new()
-        .with_middleware(CountMw(c.clone()))
+    let base = if with_mw { Router::new().with_middleware(CountMw(c.clone())) } else { Router::new() };
+    let router = base
         .with_json("/json", json_fn)
         .with_typed::<TypedIn, TypedOut, _>("/typed", move |t: TypedIn| {
             c2.hit("typed");
@@ -400,6 +406,8 @@ impl PathKind {
 
 pub struct Endpoint {
     kind: PathKind,
+    /// false: the router carries no middleware (zero-copy dispatch where the route has it)
+    with_mw: bool,
     counters: Arc<Counters>,
     addr: Option<std::net::SocketAddr>,
     rt: Option<tokio::runtime::Runtime>,
@@ -415,9 +423,15 @@ static NEXT_SLOT: AtomicU64 = AtomicU64::new(100);
 
 impl Endpoint {
     pub fn start(kind: PathKind) -> Endpoint {
+        Self::start_mw(kind, true)
+    }
+    pub fn label(&self) -> String {
+        if self.with_mw { self.kind.name().to_string() } else { format!("{}/no-middleware", self.kind.name()) }
+    }
+    pub fn start_mw(kind: PathKind, with_mw: bool) -> Endpoint {
         let counters = Counters::new();
-        let router = build_router(&counters);
-        let mut ep = Endpoint { kind, counters, addr: None, rt: None, mem_tx: None, shared: None, _server: None };
+        let router = build_router_mw(&counters, with_mw);
+        let mut ep = Endpoint { kind, with_mw, counters, addr: None, rt: None, mem_tx: None, shared: None, _server: None };
         match kind {
             PathKind::BlockingTcp | PathKind::BlockingTcpTimeouts => {
                 let mut server = repe::Server::new(router);
@@ -613,7 +627,7 @@ pub fn check_pipeline(ep: &Endpoint, letters: &[&Letter], tally: &mut Tally, ref
                 *want.get_mut(r).unwrap() += 1;
             }
         }
-        if l.dispatched {
+        if l.dispatched && ep.with_mw {
             *want.get_mut("middleware").unwrap() += 1;
         }
     }
@@ -713,6 +727,8 @@ pub fn run(tier: Tier) -> ! {
         PathKind::AsyncMemTimeouts,
         PathKind::WebSocketCancelHandshake,
     ];
+    // every base path again with a router that carries no middleware (zero-copy dispatch)
+    let kinds: Vec<(PathKind, bool)> = kinds.iter().map(|k| (*k, true)).chain([PathKind::BlockingTcp, PathKind::AsyncTcp, PathKind::AsyncMem, PathKind::WebSocket].map(|k| (k, false))).collect();
     // pipelines: singles, ordered pairs, then (thorough) triples over a sub-alphabet and long pipelines
     let mut pipelines: Vec<Vec<usize>> = Vec::new();
     for i in 0..n {
@@ -773,14 +789,15 @@ pub fn run(tier: Tier) -> ! {
             libc::close(devnull);
         }
     }
-    let results: Vec<(PathKind, Tally, Vec<(String, String, Vec<usize>)>)> = std::thread::scope(|s| {
+    let results: Vec<(String, Tally, Vec<(String, String, Vec<usize>)>)> = std::thread::scope(|s| {
         let hs: Vec<_> = kinds
             .iter()
-            .map(|&kind| {
+            .map(|&(kind, with_mw)| {
                 let alpha = &alpha;
                 let pipelines = &pipelines;
                 s.spawn(move || {
-                    let ep = Endpoint::start(kind);
+                    let ep = Endpoint::start_mw(kind, with_mw);
+                    let kind = ep.label();
                     let mut tally = Tally::default();
                     let mut reference = BTreeMap::new();
                     let mut bad_all = Vec::new();
@@ -801,10 +818,10 @@ pub fn run(tier: Tier) -> ! {
             })
             .collect();
         let mut out = Vec::new();
-        let mut refs: Vec<(PathKind, BTreeMap<String, (u32, Vec<u8>, u16, Vec<u8>)>)> = Vec::new();
+        let mut refs: Vec<(String, BTreeMap<String, (u32, Vec<u8>, u16, Vec<u8>)>)> = Vec::new();
         for h in hs {
             let (kind, tally, bad, reference) = h.join().unwrap();
-            refs.push((kind, reference));
+            refs.push((kind.clone(), reference));
             out.push((kind, tally, bad));
         }
         // cross-transport comparison of the reference responses
@@ -818,7 +835,7 @@ pub fn run(tier: Tier) -> ! {
                     if other != fields {
                         out[0].2.push((
                             format!("C03:transport-divergence:{name}"),
-                            format!("response fields for {name} differ between {} and {}: (ec {}, body {:?}) vs (ec {}, body {:?})", k0.name(), k.name(), fields.0, String::from_utf8_lossy(&fields.3), other.0, String::from_utf8_lossy(&other.3)),
+                            format!("response fields for {name} differ between {} and {}: (ec {}, body {:?}) vs (ec {}, body {:?})", k0, k, fields.0, String::from_utf8_lossy(&fields.3), other.0, String::from_utf8_lossy(&other.3)),
                             vec![],
                         ));
                     }
@@ -848,7 +865,7 @@ pub fn run(tier: Tier) -> ! {
     let mut per_path = Vec::new();
     for (kind, t, bad) in &results {
         for (k, w, p) in bad {
-            ctx.violation(k.clone(), w.clone(), json!({"path_kind": kind.name(), "pipeline": p, "letters": p.iter().map(|i| alpha[*i].name).collect::<Vec<_>>()}));
+            ctx.violation(k.clone(), w.clone(), json!({"path_kind": kind, "pipeline": p, "letters": p.iter().map(|i| alpha[*i].name).collect::<Vec<_>>()}));
         }
         total.pipelines += t.pipelines;
         total.requests += t.requests;
@@ -857,7 +874,7 @@ pub fn run(tier: Tier) -> ! {
         for (k, v) in &t.by_class {
             *total.by_class.entry(k.clone()).or_insert(0) += v;
         }
-        per_path.push(json!({"path": kind.name(), "pipelines": t.pipelines, "requests": t.requests, "responses": t.responses}));
+        per_path.push(json!({"path": kind, "pipelines": t.pipelines, "requests": t.requests, "responses": t.responses}));
     }
     if !ctx.has_violation() && (total.by_class.len() < 6 || total.multi_inflight == 0) {
         ctx.machinery("vacuous exploration: fewer than 6 response classes or no multi-request pipeline");
@@ -877,7 +894,7 @@ pub fn run(tier: Tier) -> ! {
         "non_deciding_rows": ["websocket-outbound-capacity-1: same pipelines on a 4-worker runtime with a 1-slot outbound queue and a trickling peer; the schedules of the runtime workers are whatever occurs (not enumerated), so this row only adds detection (any reordering it sees is a real violation: the reader queues responses sequentially)"],
         "requests_at_the_offreader_cap": {"scenarios": sat.scenarios, "calls_answered_by_the_reader": sat.rejected_calls_seen, "notifies_at_the_cap": sat.notifies_at_cap, "parked_handler_runs": sat.handler_runs, "rule": "caps 1, 2, 3 (thorough 16) x four blocking route kinds x {call, notify, call+notify+call} at the cap x short / 285-byte escaped path: exactly one response per call carrying its id and its query bytes, none per notify, one per released request, handler invocations = dispatched requests"},
         "nonvacuity": {"responses_by_error_code": total.by_class, "pipelines_with_2plus_responses": total.multi_inflight, "responses": total.responses, "requests": total.requests},
-        "rule": "every pipeline (all letters, all ordered pairs, triples over a 12-letter sub-alphabet (thorough: over all letters, plus quadruples over the sub-alphabet), each letter x64, pairs around 62 echoes) is written in one burst on a fresh connection of each dispatch path (blocking TCP, async TCP, async over memstream, WebSocket with inline and off-reader routes); all frames received until the server closes are matched by id against the model; handler and middleware invocation counters are compared per pipeline",
+        "rule": "every pipeline (all letters, all ordered pairs, triples over a 12-letter sub-alphabet (thorough: over all letters, plus quadruples over the sub-alphabet), each letter x64, pairs around 62 echoes) is written in one burst on a fresh connection of each dispatch path (blocking TCP, async TCP, async over memstream, WebSocket with inline and off-reader routes; each with a router-wide counting middleware, which forces the copying dispatch path, and again with no middleware at all, where the servers dispatch zero-copy); all frames received until the server closes are matched by id against the model; handler and middleware invocation counters are compared per pipeline",
     });
     ctx.finish(
         "model_checking",
@@ -900,7 +917,9 @@ pub fn replay(case: &Value) -> Result<(), String> {
         return if out.bad.is_empty() { Ok(()) } else { Err(out.bad.into_iter().map(|(k, w, _)| format!("{k}: {w}")).collect::<Vec<_>>().join("\n")) };
     }
     let alpha = alphabet();
-    let kind = match case["path_kind"].as_str().unwrap_or("") {
+    let label = case["path_kind"].as_str().unwrap_or("");
+    let with_mw = !label.ends_with("/no-middleware");
+    let kind = match label.trim_end_matches("/no-middleware") {
         "blocking-tcp" => PathKind::BlockingTcp,
         "async-tcp" => PathKind::AsyncTcp,
         "async-mem" => PathKind::AsyncMem,
@@ -912,7 +931,7 @@ pub fn replay(case: &Value) -> Result<(), String> {
         _ => PathKind::WebSocket,
     };
     let p: Vec<usize> = case["pipeline"].as_array().ok_or("pipeline")?.iter().map(|v| v.as_u64().unwrap_or(0) as usize).collect();
-    let ep = Endpoint::start(kind);
+    let ep = Endpoint::start_mw(kind, with_mw);
     let letters: Vec<&Letter> = p.iter().map(|i| &alpha[*i]).collect();
     let mut tally = Tally::default();
     let mut reference = BTreeMap::new();
